@@ -774,3 +774,139 @@ Theorem from_meshio_pinned_refuted :
   from_meshio_pinned blocks data = Some [(5, ([[1; 2; 3]], [10])); (9, ([[0; 1; 2; 3]], [20]))] /\
   from_meshio_fixed blocks data = Some [(5, ([[0; 1; 2]; [1; 2; 3]], [10; 30])); (9, ([[0; 1; 2; 3]], [20]))].
 Proof. vm_compute. split; reflexivity. Qed.
+
+(* ================================================================================================ *)
+(* 8. _get_structured_decomposition: one axis, any listing order of the pieces                      *)
+(* ================================================================================================ *)
+From Coq Require Import Sorted.
+
+Lemma insert_unique_in : forall x y l, In y (insert_unique x l) <-> y = x \/ In y l.
+Proof.
+  intros x y l. induction l as [|z l IH]; simpl; [intuition|].
+  destruct (x <? z)%Z eqn:E1; [simpl; intuition|].
+  destruct (x =? z)%Z eqn:E2.
+  - apply Z.eqb_eq in E2. subst. simpl. intuition.
+  - simpl. rewrite IH. intuition.
+Qed.
+
+Lemma insert_unique_sorted : forall x l, StronglySorted Z.lt l -> StronglySorted Z.lt (insert_unique x l).
+Proof.
+  intros x l H. induction H as [|z l Hs IH Hf]; simpl; [repeat constructor|].
+  destruct (x <? z)%Z eqn:E1.
+  - apply Z.ltb_lt in E1. constructor; [constructor; assumption|].
+    constructor; [exact E1|]. rewrite Forall_forall in *. intros y Hy. specialize (Hf y Hy). lia.
+  - destruct (x =? z)%Z eqn:E2; [constructor; assumption|].
+    apply Z.ltb_ge in E1. apply Z.eqb_neq in E2.
+    constructor; [exact IH|]. rewrite Forall_forall in *. intros y Hy. apply insert_unique_in in Hy.
+    destruct Hy as [->|Hy]; [lia|apply Hf; exact Hy].
+Qed.
+
+Lemma unique_sorted_in : forall y l, In y (unique_sorted l) <-> In y l.
+Proof.
+  intros y l. unfold unique_sorted. induction l as [|x l IH]; simpl; [tauto|].
+  rewrite insert_unique_in, IH. intuition.
+Qed.
+
+Lemma unique_sorted_sorted : forall l, StronglySorted Z.lt (unique_sorted l).
+Proof. induction l as [|x l IH]; simpl; [constructor|]. apply insert_unique_sorted. exact IH. Qed.
+
+Lemma strict_sorted_unique : forall l1 l2 : list Z,
+  StronglySorted Z.lt l1 -> StronglySorted Z.lt l2 -> (forall x, In x l1 <-> In x l2) -> l1 = l2.
+Proof.
+  induction l1 as [|a l1 IH]; intros l2 H1 H2 Heq; destruct l2 as [|b l2].
+  - reflexivity.
+  - exfalso. apply (proj2 (Heq b)). left. reflexivity.
+  - exfalso. apply (proj1 (Heq a)). left. reflexivity.
+  - inversion H1 as [|? ? Hs1 Hf1]; subst. inversion H2 as [|? ? Hs2 Hf2]; subst.
+    rewrite Forall_forall in Hf1, Hf2.
+    assert (a = b).
+    { destruct (proj1 (Heq a) (or_introl eq_refl)) as [Hb|Hb]; [congruence|].
+      destruct (proj2 (Heq b) (or_introl eq_refl)) as [Ha|Ha]; [congruence|].
+      specialize (Hf1 b Ha). specialize (Hf2 a Hb). lia. }
+    subst b. f_equal. apply IH; try assumption.
+    intro x. split; intro Hx.
+    + destruct (proj1 (Heq x) (or_intror Hx)) as [He|Hi]; [|exact Hi]. subst. specialize (Hf1 _ Hx). lia.
+    + destruct (proj2 (Heq x) (or_intror Hx)) as [He|Hi]; [|exact Hi]. subst. specialize (Hf2 _ Hx). lia.
+Qed.
+
+Definition zoff (sizes : list Z) (p : nat) : Z := fold_right Z.add 0%Z (firstn p sizes).
+Definition zbegin (b : Z) (sizes : list Z) (p : nat) : Z := (b + zoff sizes p)%Z.
+Definition zend (b : Z) (sizes : list Z) (p : nat) : Z := (b + zoff sizes p + nth p sizes 0)%Z.
+
+Lemma zoff_S : forall sizes p, p < length sizes -> zoff sizes (S p) = (zoff sizes p + nth p sizes 0)%Z.
+Proof.
+  unfold zoff. induction sizes as [|s sizes IH]; intros p Hp; simpl in Hp; [lia|].
+  destruct p as [|p]; [simpl; lia|].
+  change (firstn (S (S p)) (s :: sizes)) with (s :: firstn (S p) sizes).
+  change (firstn (S p) (s :: sizes)) with (s :: firstn p sizes).
+  change (nth (S p) (s :: sizes) 0%Z) with (nth p sizes 0%Z).
+  cbn [fold_right]. rewrite (IH p) by lia. lia.
+Qed.
+
+Lemma zoff_mono : forall sizes, Forall (fun s => (0 < s)%Z) sizes ->
+  forall p q, p < q -> q <= length sizes -> (zoff sizes p < zoff sizes q)%Z.
+Proof.
+  intros sizes Hpos p q Hpq Hq. induction q as [|q IH]; [lia|].
+  assert (Hn : (0 < nth q sizes 0)%Z).
+  { rewrite Forall_forall in Hpos. apply Hpos. apply nth_In. lia. }
+  rewrite zoff_S by lia. destruct (Nat.eq_dec p q) as [->|Hne]; [lia|]. specialize (IH ltac:(lia) ltac:(lia)). lia.
+Qed.
+
+Lemma sorted_map_seq : forall (f : nat -> Z) n a,
+  (forall p q, a <= p -> p < q -> q < a + n -> (f p < f q)%Z) -> StronglySorted Z.lt (map f (seq a n)).
+Proof.
+  intros f n. induction n as [|n IH]; intros a H; simpl; constructor.
+  - apply IH. intros p q Hp Hpq Hq. apply H; lia.
+  - apply Forall_forall. intros y Hy. apply in_map_iff in Hy. destruct Hy as [q [<- Hq]]. apply in_seq in Hq.
+    apply H; lia.
+Qed.
+
+Lemma map2_map_map : forall (A B C D : Type) (g : B -> C -> D) (f1 : A -> B) (f2 : A -> C) l,
+  map2 g (map f1 l) (map f2 l) = map (fun x => g (f1 x) (f2 x)) l.
+Proof. induction l as [|x l IH]; simpl; [reflexivity|]. rewrite IH. reflexivity. Qed.
+
+Lemma index_of_map_seq : forall (f : nat -> Z) n a p,
+  (forall i j, a <= i -> i < j -> j < a + n -> f i <> f j) -> a <= p -> p < a + n ->
+  index_of (f p) (map f (seq a n)) = p - a.
+Proof.
+  intros f n. induction n as [|n IH]; intros a p Hinj Ha Hp; [lia|]. simpl.
+  destruct (Nat.eq_dec p a) as [->|Hne]; [rewrite Z.eqb_refl; lia|].
+  assert (Hneq : (f p =? f a)%Z = false).
+  { apply Z.eqb_neq. intro He. apply (Hinj a p); try lia. }
+  rewrite Hneq. rewrite (IH (S a) p); [lia| |lia|lia]. intros i j Hi Hij Hj. apply Hinj; lia.
+Qed.
+
+(* decomposition_from_extents (one axis): whatever the order (and multiplicity) in which the pieces are listed, the sorted
+   distinct begin / end values of their extents give back the piece sizes along the axis, and the position of a piece along
+   the axis is the index of its begin value — this is what sizes_along_axis / piece_location compute *)
+Theorem axis_decomposition_from_extents : forall (b : Z) (sizes : list Z) (ps : list nat),
+  Forall (fun s => (0 < s)%Z) sizes ->
+  (forall p, In p ps <-> p < length sizes) ->
+  map2 (fun e b' => (e - b')%Z) (unique_sorted (map (zend b sizes) ps)) (unique_sorted (map (zbegin b sizes) ps)) = sizes
+  /\ forall p, p < length sizes -> index_of (zbegin b sizes p) (unique_sorted (map (zbegin b sizes) ps)) = p.
+Proof.
+  intros b sizes ps Hpos Hps.
+  set (n := length sizes).
+  assert (Hb : unique_sorted (map (zbegin b sizes) ps) = map (zbegin b sizes) (seq 0 n)).
+  { apply strict_sorted_unique; [apply unique_sorted_sorted| |].
+    - apply sorted_map_seq. intros p q _ Hpq Hq. unfold zbegin.
+      pose proof (zoff_mono sizes Hpos p q Hpq ltac:(unfold n in Hq; lia)). lia.
+    - intro x. rewrite unique_sorted_in, !in_map_iff. split; intros [p [He Hp]]; exists p; (split; [exact He|]).
+      + apply in_seq. apply Hps in Hp. unfold n. lia.
+      + apply Hps. apply in_seq in Hp. unfold n in Hp. lia. }
+  assert (He : unique_sorted (map (zend b sizes) ps) = map (zend b sizes) (seq 0 n)).
+  { apply strict_sorted_unique; [apply unique_sorted_sorted| |].
+    - apply sorted_map_seq. intros p q _ Hpq Hq. unfold zend. unfold n in Hq.
+      rewrite <- !Z.add_assoc, <- !zoff_S by lia.
+      pose proof (zoff_mono sizes Hpos (S p) (S q) ltac:(lia) ltac:(lia)). lia.
+    - intro x. rewrite unique_sorted_in, !in_map_iff. split; intros [p [Hx Hp]]; exists p; (split; [exact Hx|]).
+      + apply in_seq. apply Hps in Hp. unfold n. lia.
+      + apply Hps. apply in_seq in Hp. unfold n in Hp. lia. }
+  rewrite Hb, He. split.
+  - rewrite map2_map_map. transitivity (map (fun i => nth i sizes 0%Z) (seq 0 n)).
+    + apply map_ext. intro p. unfold zend, zbegin. lia.
+    + apply map_nth_seq.
+  - intros p Hp. rewrite (index_of_map_seq _ n 0 p); [lia| |lia|unfold n; lia].
+    intros i j _ Hij Hj. unfold zbegin.
+    pose proof (zoff_mono sizes Hpos i j Hij ltac:(unfold n in Hj; lia)). lia.
+Qed.
